@@ -94,7 +94,11 @@ impl SenderInner {
 
 // ================================================================ SenderInner::resend (link resumption: a delivery the peer has no record of is sent again under a new tag)
 //@@ trusted for `resend` the link is a second stand-in (LinkR): get_delivery_tag_or_detached (the credit wait that ALSO watches the link's incoming channel: unit SENDSPLIT / LINKFLOW), generate_non_resuming_transfer_performative and send_transfer_without_modifying_unsettled_map (unit SENDSPLIT) record what they are handed; the unsettled map is a map view; a bare `flow_state.consume(..)` -- a credit wait nothing can interrupt -- is a stand-in whose call is an obligation
-opaque!(DeliveryTag, Transfer, ChanId);
+opaque!(DeliveryTag, ChanId, ReceiverSettleMode);
+pub struct HandleS { pub h: u32 }
+/// performatives::Transfer (field order and descriptor: unit WIRELAYOUT)
+pub struct Transfer { pub handle: HandleS, pub delivery_id: Option<u32>, pub delivery_tag: Option<DeliveryTag>, pub message_format: Option<u32>, pub settled: Option<bool>, pub more: bool,
+    pub rcv_settle_mode: Option<ReceiverSettleMode>, pub state: Option<DeliveryState>, pub resume: bool, pub aborted: bool, pub batchable: bool }
 pub struct UnsettledMessage { pub payload: Payload, pub state: Option<DeliveryState>, pub message_format: u32, pub sender: ChanId }
 impl Payload { #[verifier::external_body] pub fn clone(&self) -> (r: Payload) ensures r == *self { unimplemented!() } }
 impl DeliveryTag {
@@ -117,11 +121,34 @@ impl FlowStateR {
 }
 pub struct XferCall { pub tag: DeliveryTag, pub message_format: u32, pub settled: Option<bool>, pub state: Option<DeliveryState>, pub batchable: bool }
 pub uninterp spec fn transfer_for(c: XferCall) -> Transfer;
-pub struct LinkR { pub unsettled: Option<Map<DeliveryTag, UnsettledMessage>>, pub waits: Ghost<nat>, pub sent: Ghost<Seq<(Transfer, Payload)>>, pub flow_state: FlowStateR }
+pub enum SenderSettleMode { Unsettled, Settled, Mixed }
+#[derive(Clone, Copy)]
+pub struct OutputHandleS { pub h: u32 }
+impl OutputHandleS {
+    /// OutputHandle -> Handle (unit CONVERSIONS: the number is unchanged)
+    pub fn into(self) -> (r: HandleS) ensures r.h == self.h { HandleS { h: self.h } }
+}
+/// `resolved`: the completion channels that have been resolved (the send waiting on each has its answer), in order
+pub struct LinkR { pub unsettled: Option<Map<DeliveryTag, UnsettledMessage>>, pub waits: Ghost<nat>, pub sent: Ghost<Seq<(Transfer, Payload)>>, pub flow_state: FlowStateR,
+    pub output_handle: Option<OutputHandleS>, pub snd_settle_mode: SenderSettleMode, pub resolved: Ghost<Seq<ChanId>> }
+#[verifier::external_body] pub fn link_illegal_state() -> (r: LinkStateError) { unimplemented!() }
+/// `sender.send(None)` on a delivery's completion channel (R9: a channel is a ghost trace)
+#[verifier::external_body]
+pub fn resolve_waiter(link: &mut LinkR, sender: ChanId)
+    ensures final(link).resolved@ == old(link).resolved@.push(sender), final(link).unsettled == old(link).unsettled, final(link).sent == old(link).sent, final(link).waits == old(link).waits,
+        final(link).output_handle == old(link).output_handle,
+{ unimplemented!() }
+/// UnsettledMessage::new(payload, state, format, sender)
+pub fn unsettled_new(payload: Payload, state: Option<DeliveryState>, message_format: u32, sender: ChanId) -> (r: UnsettledMessage)
+    ensures r == (UnsettledMessage { payload, state, message_format, sender })
+{ UnsettledMessage { payload, state, message_format, sender } }
+impl Payload { #[verifier::external_body] pub fn new_empty() -> (r: Payload) { unimplemented!() } }
+impl DeliveryState { #[verifier::external_body] pub fn clone(&self) -> (r: DeliveryState) ensures r == *self { unimplemented!() } }
+pub fn clone_state(s: &Option<DeliveryState>) -> (r: Option<DeliveryState>) ensures r == *s { match s { Some(x) => Some(x.clone()), None => None } }
 impl LinkR {
     #[verifier::external_body]
     pub fn get_delivery_tag_or_detached(&mut self, writer: &OutTx, detached: DetachedFut) -> (r: Result<[u8; 4], LinkStateError>)
-        ensures final(self).unsettled == old(self).unsettled, final(self).sent == old(self).sent, final(self).waits@ == old(self).waits@ + 1,
+        ensures final(self).unsettled == old(self).unsettled, final(self).sent == old(self).sent, final(self).waits@ == old(self).waits@ + 1, final(self).resolved == old(self).resolved, final(self).output_handle == old(self).output_handle,
     { unimplemented!() }
     #[verifier::external_body]
     pub fn generate_non_resuming_transfer_performative(&self, delivery_tag: DeliveryTag, message_format: u32, settled: Option<bool>, state: Option<DeliveryState>, batchable: bool) -> (r: Result<Transfer, LinkStateError>)
@@ -129,8 +156,8 @@ impl LinkR {
     { unimplemented!() }
     #[verifier::external_body]
     pub fn send_transfer_without_modifying_unsettled_map(&mut self, writer: &OutTx, transfer: Transfer, payload: Payload) -> (r: Result<bool, LinkStateError>)
-        ensures final(self).unsettled == old(self).unsettled, final(self).waits == old(self).waits,
-            r is Ok ==> final(self).sent@ == old(self).sent@.push((transfer, payload)),
+        ensures final(self).unsettled == old(self).unsettled, final(self).waits == old(self).waits, final(self).resolved == old(self).resolved, final(self).output_handle == old(self).output_handle,
+            r is Ok ==> final(self).sent@ == old(self).sent@.push((transfer, payload)), r is Err ==> final(self).sent@ == old(self).sent@,
     { unimplemented!() }
 }
 /// `guard.get_or_insert(OrderedMap::new()).insert(k, v)` on the unsettled map (R15)
@@ -138,6 +165,11 @@ impl LinkR {
 pub fn opt_map_insert(m: &mut Option<Map<DeliveryTag, UnsettledMessage>>, k: DeliveryTag, v: UnsettledMessage)
     ensures *final(m) == Some((match *old(m) { Some(mm) => mm, None => Map::empty() }).insert(k, v)),
 { unimplemented!() }
+pub type MessageFormatR = u32;
+//@@ type file=fe2o3-amqp/src/link/resumption.rs kind=enum name=ResumingDelivery
+//@@ subst `oneshot::Sender<Option<DeliveryState>>` => `ChanId` rule=R9
+//@@ subst `MessageFormat` => `MessageFormatR` rule=R11
+//@@ end
 pub struct SenderInnerR { pub link: LinkR, pub outgoing: OutTx, pub incoming: InRx }
 impl SenderInnerR {
 //@@ fn file=fe2o3-amqp/src/link/sender.rs impl=`impl SenderInner<SenderLink<Target>>` name=resend dropuses
@@ -156,6 +188,76 @@ impl SenderInnerR {
             &&& exists|tag: [u8; 4]| t == transfer_for(XferCall { tag: tag_of(tag), message_format: unsettled_message.message_format, settled: None, state: None, batchable: false })     // a fresh, non-resuming transfer with the delivery's message format
                     && (final(self).link.unsettled != old(self).link.unsettled ==> final(self).link.unsettled == Some((match old(self).link.unsettled { Some(mm) => mm, None => Map::empty() }).insert(tag_of(tag), unsettled_message)))       // [C02.resend.completion-channel-travels-with-the-delivery] unless the delivery went out settled, it is unsettled again under the NEW tag -- payload, state, format AND the channel its send waits on: the outcome the peer reports for the new tag resolves the original send
         }),
+//@@ end
+
+//@@ fn file=fe2o3-amqp/src/link/sender.rs impl=`impl SenderInner<SenderLink<Target>>` name=abort
+//@@ qmark
+//@@ subst `LinkStateError::IllegalState` => `link_illegal_state()` rule=R11b
+//@@ blockarms
+//@@ param sender : Option<ChanId>
+//@@ param message_format : u32
+//@@ ret Result<(), SendErr>
+//@@ subst `let payload = Bytes::new();` => `let payload = Payload::new_empty();` rule=R9
+//@@ subst `let _ = sender.send(None);` => `resolve_waiter(&mut self.link, sender);` rule=R9
+//@@ subst `let unsettled = UnsettledMessage::new(payload, None, message_format, sender); let mut guard = self.link.unsettled.write(); guard .get_or_insert(OrderedMap::new()) .insert(delivery_tag, unsettled);` => `let unsettled = unsettled_new(payload, None, message_format, sender); opt_map_insert(&mut self.link.unsettled, delivery_tag, unsettled);` rule=R15,R4
+//@@ spec
+    ensures
+        r is Ok ==> final(self).link.sent@.len() == old(self).link.sent@.len() + 1 && ({
+            let t = final(self).link.sent@.last().0;
+            &&& t.delivery_tag == Some(delivery_tag) && t.resume && t.aborted && !t.more        // [C02.resume.abort-names-the-delivery] a delivery only the receiver still knows is aborted under ITS tag: resume = true, aborted = true
+            &&& (sender is Some ==> (final(self).link.resolved@ == old(self).link.resolved@.push(sender->Some_0) && final(self).link.unsettled == old(self).link.unsettled)
+                    || (final(self).link.resolved@ == old(self).link.resolved@ && final(self).link.unsettled is Some && final(self).link.unsettled->Some_0.contains_key(delivery_tag) && final(self).link.unsettled->Some_0[delivery_tag].sender == sender->Some_0))     // [C02.resume.waiter-not-lost] a send that still waits on that delivery is either answered now or stays registered under the delivery's tag: its completion channel is never dropped on the floor
+        }),
+//@@ end
+
+//@@ fn file=fe2o3-amqp/src/link/sender.rs impl=`impl SenderInner<SenderLink<Target>>` name=resume
+//@@ qmark
+//@@ subst `LinkStateError::IllegalState` => `link_illegal_state()` rule=R11b
+//@@ blockarms
+//@@ ret Result<(), SendErr>
+//@@ subst `unsettled_message.state.clone()` => `clone_state(&unsettled_message.state)` rule=R16
+//@@ subst `let mut guard = self.link.unsettled.write(); guard .get_or_insert(OrderedMap::new()) .insert(delivery_tag, unsettled_message);` => `opt_map_insert(&mut self.link.unsettled, delivery_tag, unsettled_message);` rule=R15,R4
+//@@ spec
+    ensures
+        r is Ok ==> final(self).link.sent@.len() == old(self).link.sent@.len() + 1 && ({
+            let (t, p) = final(self).link.sent@.last();
+            &&& t.delivery_tag == Some(delivery_tag) && t.resume && !t.aborted && t.state == unsettled_message.state && t.message_format == Some(unsettled_message.message_format)      // [C02.resume.resumed-under-its-own-tag] a delivery both ends remember is resumed under ITS tag, with the state the sender has on record
+            &&& p == unsettled_message.payload       // [C01.resume.same-payload]
+            &&& (final(self).link.unsettled != old(self).link.unsettled ==> final(self).link.unsettled == Some((match old(self).link.unsettled { Some(mm) => mm, None => Map::empty() }).insert(delivery_tag, unsettled_message)))      // [C02.resume.waiter-not-lost] unless it went out settled, the delivery -- with the channel its send waits on -- is unsettled again under the same tag
+        }),
+//@@ end
+
+//@@ fn file=fe2o3-amqp/src/link/sender.rs impl=`impl SenderInner<SenderLink<Target>>` name=restate_outcome
+//@@ qmark
+//@@ subst `LinkStateError::IllegalState` => `link_illegal_state()` rule=R11b
+//@@ blockarms
+//@@ param sender : ChanId
+//@@ param message_format : u32
+//@@ ret Result<(), SendErr>
+//@@ subst `let _ = sender.send(None);` => `resolve_waiter(&mut self.link, sender);` rule=R9
+//@@ subst `let unsettled = UnsettledMessage::new(payload, None, message_format, sender); let mut guard = self.link.unsettled.write(); guard .get_or_insert(OrderedMap::new()) .insert(delivery_tag, unsettled);` => `let unsettled = unsettled_new(payload, None, message_format, sender); opt_map_insert(&mut self.link.unsettled, delivery_tag, unsettled);` rule=R15,R4
+//@@ spec
+    ensures
+        r is Ok ==> final(self).link.sent@.len() == old(self).link.sent@.len() + 1 && ({
+            let t = final(self).link.sent@.last().0;
+            &&& t.delivery_tag == Some(delivery_tag) && t.resume && !t.aborted && t.state == Some(state) && t.settled == Some(false)       // [C02.resume.outcome-restated] the outcome the sender has on record is stated again for THAT delivery, unsettled
+            &&& (final(self).link.resolved@ == old(self).link.resolved@.push(sender) && final(self).link.unsettled == old(self).link.unsettled)
+                    || (final(self).link.resolved@ == old(self).link.resolved@ && final(self).link.unsettled is Some && final(self).link.unsettled->Some_0.contains_key(delivery_tag) && final(self).link.unsettled->Some_0[delivery_tag].sender == sender)      // [C02.resume.waiter-not-lost]
+        }),
+//@@ end
+
+//@@ fn file=fe2o3-amqp/src/link/sender.rs impl=`impl SenderInner<SenderLink<Target>>` name=handle_resuming_delivery
+//@@ qmark
+//@@ blockarms
+//@@ ret Result<(), SendErr>
+//@@ spec
+    ensures
+        resuming is Resend ==> r is Ok && final(resend_buf)@ == old(resend_buf)@.push(resuming->Resend_0) && final(self).link == old(self).link,       // [C02.resume.resend-deferred] a delivery the receiver has no record of is put aside to be sent again under a new tag -- once, after the resumable ones; nothing is written for it here and its completion channel travels with it
+        !(resuming is Resend) ==> final(resend_buf)@ == old(resend_buf)@,
+        r is Ok && !(resuming is Resend) ==> final(self).link.sent@.len() == old(self).link.sent@.len() + 1
+            && final(self).link.sent@.last().0.delivery_tag == Some(delivery_tag) && final(self).link.sent@.last().0.resume,       // [C02.resume.one-resuming-transfer-per-delivery] every other case writes exactly one resuming transfer, under the delivery's own tag
+        r is Ok && resuming is Abort ==> final(self).link.sent@.last().0.aborted,
+        r is Ok && (resuming is Resume || resuming is RestateOutcome) ==> !final(self).link.sent@.last().0.aborted,
 //@@ end
 }
 
